@@ -5,7 +5,7 @@ import re
 
 from . import common, fsbox, pipeline, rstobs
 
-DIRNAMES = ["b", "a", "a-1", "c.d"]
+DIRNAMES = ["b", "lib.cmake", "a-1", "c.d"]      # the second one is a *directory* named like a CMake file
 CONTENT = {
     "empty": [],
     "txt": ["n.txt"],
@@ -14,7 +14,9 @@ CONTENT = {
     "mixedcase": ["a.cmake", "B.CMake"],
     "dots": ["x.y-z.cmake", "n.txt"],
     "nodot": ["a.cmake", "cmake"],
-    "stemorder": ["a.cmake", "a-b.cmake"],      # 'a-b.cmake' < 'a.cmake' but 'a' < 'a-b'
+    "stemorder": ["a.cmake", "a-b.cmake"],
+    "indexfile": ["a.cmake", "index.cmake"],    # its page has the path of the directory index (known finding K4)
+    "indexfile_renamed": ["a.cmake", "index_.cmake"],      # 'a-b.cmake' < 'a.cmake' but 'a' < 'a-b'
 
 }
 
